@@ -965,3 +965,12 @@ V("C01", "gro-time-two-decimals", "mdtraj/formats/gro.py", '            comment 
 V("C01", "twin-gro-time-format-call", "mdtraj/formats/gro.py", '            comment += ", t= %s" % time', '            comment += ", t= {}".format(time)', None)
 V("C08", "hydrogen-store-only-when-oriented", GEOC, "                r_n.store(hcoords);\n            } else {", "            } else {", "C08-R4")
 V("C05", "contacts-ignore-periodic", "mdtraj/geometry/contact.py", "periodic=periodic", "periodic=True", "C05-R6", count=2)
+UCF = "mdtraj/utils/unitcell.py"
+V("C17", "cy-without-sin-gamma", UCF, "    cy = c_length * (np.cos(alpha) - np.cos(beta) * np.cos(gamma)) / np.sin(gamma)", "    cy = c_length * (np.cos(alpha) - np.cos(beta) * np.cos(gamma))", "C17-R7")
+V("C17", "cz-forgets-cy", UCF, "    cz = np.sqrt(c_length * c_length - cx * cx - cy * cy)", "    cz = np.sqrt(c_length * c_length - cx * cx)", "C17-R7")
+V("C17", "inverse-beta-wrong-norm", UCF, 'beta = np.arccos(np.einsum("...i, ...i", c, a) / (c_length * a_length), casting=\'safe\')', 'beta = np.arccos(np.einsum("...i, ...i", c, a) / (c_length * b_length), casting=\'safe\')', "C17-R7")
+V("C17", "tilt-yz-sign", UCF, "    yz = (b_length * c_length * np.cos(np.deg2rad(alpha)) - xy * xz) / ly", "    yz = (b_length * c_length * np.cos(np.deg2rad(alpha)) + xy * xz) / ly", "C17-R7")
+V("C17", "lammps-reader-alpha-sign", LMPF, "            alpha = np.arccos((xy * xz + ly * yz) / (b * c))", "            alpha = np.arccos((xy * xz - ly * yz) / (b * c))", "C17-R7")
+V("C17", "lammps-writer-ly-from-c", LMPF, "            ly = np.sqrt(b**2 - xy**2)", "            ly = np.sqrt(b**2 - xz**2)", "C17-R7")
+V("C17", "twin-cz-powers", UCF, "    cz = np.sqrt(c_length * c_length - cx * cx - cy * cy)", "    cz = np.sqrt(c_length**2 - cx**2 - cy**2)", None)
+V("C17", "twin-cy-factored", UCF, "    cy = c_length * (np.cos(alpha) - np.cos(beta) * np.cos(gamma)) / np.sin(gamma)", "    cy = (c_length * np.cos(alpha) - cx * np.cos(gamma)) / np.sin(gamma)", None)
